@@ -16,7 +16,7 @@ r = subprocess.run(["/verif/seedtest.sh", prop, patch], capture_output=True, tex
 lines = [l for l in r.stdout.splitlines() if not l.startswith("KNOWN-FINDING")]
 caught = any(l.startswith("VIOLATION") for l in lines)
 print("\n".join(lines[-4:]))
-d = f"/verif/seeded/{prop}-{n}"
+d = f"/verif/seeded/{prop}-{int(n) + int(os.environ.get('SEED_OFFSET', '0'))}"
 os.makedirs(d, exist_ok=True)
 shutil.copy(patch, f"{d}/patch.diff")
 shutil.copy(f"{out}/{demo}", f"{d}/{demo}")
